@@ -116,7 +116,8 @@ def run_case(spec):
         case.files, case.gen = pygen.generate(spec["pseed"], "binding", p_fstring=0.05, p_star_import=0.03, p_kwonly=0.1,
                                               p_varargs=0.1, p_kwargs=0.15, p_kw_like_var=0.6, p_dunder_call=0.3,
                                               unique_names=int(spec.get("unique") or 0),
-                                              **({"p_class_comp": 0.4, "p_multi_global": 0.5, "p_member_named_like_module": 0.5}
+                                              **({"p_class_comp": 0.4, "p_multi_global": 0.5, "p_member_named_like_module": 0.5,
+                                                  "p_attr_in_tuple_target": 0.6, "p_aug_attr": 0.5, "p_instance_global": 0.5}
                                                  if spec.get("unique") else {}))
         os.makedirs(case.root)
         pyrun.write_project(case.root, case.files)
